@@ -19,6 +19,9 @@ func ParseRange(in string, opts ...RangeOptions) (*Range, error) {
 		return nil, fmt.Errorf("input is required")
 	}
 	ch := strings.FieldsFunc(in, splitBy)
+	if len(ch) < 2 {
+		return nil, fmt.Errorf("invalid range %q: expected a start block and a stop block", in)
+	}
 	for i, bound := range ch {
 		bound = strings.ReplaceAll(bound, " ", "")
 		bound = regexp.MustCompile(`[^a-zA-Z0-9 ]+`).ReplaceAllString(bound, "")
